@@ -1,6 +1,7 @@
 #!/bin/sh
 # run every registered check (quick or given tier) on the current tree; prints one line per check
-cd /verif
+cd "$(dirname "$0")/.."
+mkdir -p /root/scratch
 TIER="${1:-quick}"
 for id in $(python3 -c "import json; print(' '.join(c['property_id'] for c in json.load(open('MANIFEST.json'))['checks']))"); do
   ./check $id --tier $TIER > /root/scratch/run_$id.log 2>&1; rc=$?
